@@ -128,6 +128,7 @@ type World struct {
 	chanElems     []types.Type
 	guardedMaps   []*types.Map
 	lockMemo      map[*ssa.Function]int
+	staticTables  map[*ssa.Global]*staticTable
 	snapTypes     map[string]map[string]bool   // package|variable name -> types it had in the snapshot
 	ckeyAlias     map[string]string            // current contract key of a function -> the key its contract was written under
 	renames       map[string]map[string]string // function -> (name in the contracts -> current name), pure renames only
